@@ -101,9 +101,27 @@ def parse_spec_file(path):
 # rewriting
 # --------------------------------------------------------------------------
 def apply_rewrites(src, rules, fname, warnings=None):
-    """rules: list of dicts(kind='lit'|'re', pat, rep, count=int|None|'+', name)."""
+    """rules: list of dicts(kind='lit'|'re', pat, rep, count=int|None|'+', name, group=optional).
+    Rules that share a `group` are one rewrite written as several textual steps: when any of them no longer matches, none of
+    them is applied (a half-applied group yields text that does not even type-check)."""
+    src0 = src
+    out, log, failed = _apply_rewrites(src0, rules, fname, None if warnings is None else [], set())
+    bad_groups = set(r['group'] for r in rules if r.get('group') and r['name'] in failed)
+    if bad_groups:
+        if warnings is not None:
+            warnings.append('rewrite group(s) %s in %s not applied: a member rule lost its anchor' % (','.join(sorted(bad_groups)), fname))
+        out, log, failed = _apply_rewrites(src0, rules, fname, warnings, bad_groups)
+    else:
+        out, log, failed = _apply_rewrites(src0, rules, fname, warnings, set())
+    return out, log
+
+
+def _apply_rewrites(src, rules, fname, warnings, skip_groups):
     log = []
+    failed = set()
     for r in rules:
+        if r.get('group') in skip_groups:
+            continue
         if r.get('kind') == 'drop_item':
             n = 0
             new = src
@@ -159,13 +177,12 @@ def apply_rewrites(src, rules, fname, warnings=None):
         if not ok:
             # the code the rule targets changed: apply what matched and let the verifier decide (it either still
             # accepts the text or reports an unsupported construct -> undecided); recorded as a warning
+            failed.add(r['name'])
             if warnings is not None:
                 warnings.append('rewrite rule %s in %s matched %d times, expected %s' % (r['name'], fname, n, want))
-            else:
-                raise LostAnchor('rewrite rule %s in %s matched %d times, expected %s' % (r['name'], fname, n, want))
         log.append((r['name'], n))
         src = new
-    return src, log
+    return src, log, failed
 
 
 def assert_diverge(src):
